@@ -51,12 +51,12 @@ theorem lastNL_spec (s : Bytes) (n : Nat) (h : lastNL s = some n) :
 
 /-- what a call that returns a block has done with the bytes before it: either the stream ended
 and everything is the block, or the block is followed by a newline, the tail and the rest. -/
-def BlockOf (all b t rest : Bytes) : Prop :=
-  (all = b ∧ t = [] ∧ rest = [] ∧ b ≠ []) ∨ all = b ++ bNL :: (t ++ rest)
+def BlockOf (fin : End) (all b t rest : Bytes) : Prop :=
+  (all = b ∧ t = [] ∧ rest = [] ∧ b ≠ [] ∧ handover fin = true) ∨ all = b ++ bNL :: (t ++ rest)
 
-theorem readLoop_block (grow : Nat → Option Nat) (maxLine origin : Nat) :
+theorem readLoop_block (grow : Nat → Option Nat) (fin : End) (maxLine origin : Nat) :
     ∀ (fuel cap : Nat) (dst inp b t rest : Bytes) (cap' : Nat), origin ≤ dst.length →
-      readLoop grow maxLine origin fuel cap dst inp = .block b t rest cap' → BlockOf (dst ++ inp) b t rest := by
+      readLoop grow fin maxLine origin fuel cap dst inp = .block b t rest cap' → BlockOf fin (dst ++ inp) b t rest := by
   intro fuel
   induction fuel with
   | zero => intro cap dst inp b t rest cap' _ h; simp [readLoop] at h
@@ -69,13 +69,14 @@ theorem readLoop_block (grow : Nat → Option Nat) (maxLine origin : Nat) :
       have hinp : inp = [] := List.isEmpty_iff.mp hi
       subst hinp
       split at h
-      · cases h
       · rename_i hd
         simp only [ReadRes.block.injEq] at h
         obtain ⟨rfl, rfl, rfl, _⟩ := h
+        simp only [Bool.and_eq_true, Bool.not_eq_true'] at hd
         left
-        refine ⟨by simp, rfl, rfl, ?_⟩
-        intro he; apply hd; simp [he]
+        refine ⟨by simp, rfl, rfl, ?_, hd.1⟩
+        intro he; rw [he] at hd; simp at hd
+      · split at h <;> cases h
     · rename_i hi
       have hne : inp ≠ [] := by intro e; apply hi; simp [e]
       simp only at h
@@ -88,19 +89,22 @@ theorem readLoop_block (grow : Nat → Option Nat) (maxLine origin : Nat) :
       split at h
       · -- the stream ended before the buffer was full
         rename_i hlt
-        simp only [ReadRes.block.injEq] at h
-        obtain ⟨rfl, rfl, rfl, _⟩ := h
-        left
-        have hlen : d'.length = dst.length + min room inp.length := by
-          rw [← hd']; simp [List.length_take]
-        have hdrop : inp.drop room = [] := by
-          apply List.drop_eq_nil_of_le
+        split at h
+        · rename_i hho
+          simp only [ReadRes.block.injEq] at h
+          obtain ⟨rfl, rfl, rfl, _⟩ := h
+          left
+          have hlen : d'.length = dst.length + min room inp.length := by
+            rw [← hd']; simp [List.length_take]
+          have hdrop : inp.drop room = [] := by
+            apply List.drop_eq_nil_of_le
+            omega
+          refine ⟨by rw [hsplit, hdrop, List.append_nil], rfl, rfl, ?_, hho⟩
+          intro he
+          have hl0 : d'.length = 0 := by rw [he]; rfl
+          have hpos : 0 < inp.length := List.length_pos_iff.mpr hne
           omega
-        refine ⟨by rw [hsplit, hdrop, List.append_nil], rfl, rfl, ?_⟩
-        intro he
-        have hl0 : d'.length = 0 := by rw [he]; rfl
-        have hpos : 0 < inp.length := List.length_pos_iff.mpr hne
-        omega
+        · cases h
       · rename_i hlt
         split at h
         · rename_i nn hnl
@@ -131,9 +135,9 @@ theorem readLoop_block (grow : Nat → Option Nat) (maxLine origin : Nat) :
             · have := ih cap _ _ b t rest cap' ho' h
               rw [hsplit]; exact this
 
-theorem readLoop_eof (grow : Nat → Option Nat) (maxLine origin : Nat) :
+theorem readLoop_eof (grow : Nat → Option Nat) (fin : End) (maxLine origin : Nat) :
     ∀ (fuel cap : Nat) (dst inp : Bytes),
-      readLoop grow maxLine origin fuel cap dst inp = .eof → dst = [] ∧ inp = [] := by
+      readLoop grow fin maxLine origin fuel cap dst inp = .eof → dst = [] ∧ inp = [] := by
   intro fuel
   induction fuel with
   | zero => intro cap dst inp h; simp [readLoop] at h
@@ -143,16 +147,24 @@ theorem readLoop_eof (grow : Nat → Option Nat) (maxLine origin : Nat) :
     split at h
     · rename_i hi
       split at h
-      · rename_i hd
-        exact ⟨List.isEmpty_iff.mp hd, List.isEmpty_iff.mp hi⟩
       · cases h
+      · rename_i hd
+        split at h
+        · rename_i hf
+          subst hf
+          have : dst.isEmpty = true := by
+            cases hde : dst.isEmpty with
+            | true => rfl
+            | false => exfalso; apply hd; simp [handover, hde]
+          exact ⟨List.isEmpty_iff.mp this, List.isEmpty_iff.mp hi⟩
+        · cases h
     · rename_i hi
       have hne : inp ≠ [] := by intro e; apply hi; simp [e]
       simp only at h
       generalize hroom : cap - dst.length = room at h
       generalize hd' : dst ++ List.take room inp = d' at h
       split at h
-      · cases h
+      · split at h <;> cases h
       · have hcontra : d' = [] → inp.drop room = [] → False := by
           intro h1 h2
           rw [← hd'] at h1
@@ -171,27 +183,27 @@ theorem readLoop_eof (grow : Nat → Option Nat) (maxLine origin : Nat) :
               · cases h
             · exact absurd (ih cap _ _ h).2 (fun h2 => hcontra (ih cap _ _ h).1 h2)
 
-theorem readBlock_block (grow : Nat → Option Nat) (blk maxLine cap0 : Nat) (tail inp b t rest : Bytes) (cap' : Nat)
-    (h : readBlock grow blk maxLine cap0 tail inp = .block b t rest cap') : BlockOf (tail ++ inp) b t rest := by
+theorem readBlock_block (grow : Nat → Option Nat) (fin : End) (blk maxLine cap0 : Nat) (tail inp b t rest : Bytes) (cap' : Nat)
+    (h : readBlock grow fin blk maxLine cap0 tail inp = .block b t rest cap') : BlockOf fin (tail ++ inp) b t rest := by
   unfold readBlock at h
   generalize (if cap0 < blk then blk else cap0) = cap at h
   simp only at h
   split at h
   · split at h
-    · exact readLoop_block grow maxLine tail.length _ _ tail inp b t rest cap' (Nat.le_refl _) h
+    · exact readLoop_block grow fin maxLine tail.length _ _ tail inp b t rest cap' (Nat.le_refl _) h
     · cases h
-  · exact readLoop_block grow maxLine tail.length _ _ tail inp b t rest cap' (Nat.le_refl _) h
+  · exact readLoop_block grow fin maxLine tail.length _ _ tail inp b t rest cap' (Nat.le_refl _) h
 
-theorem readBlock_eof (grow : Nat → Option Nat) (blk maxLine cap0 : Nat) (tail inp : Bytes)
-    (h : readBlock grow blk maxLine cap0 tail inp = .eof) : tail = [] ∧ inp = [] := by
+theorem readBlock_eof (grow : Nat → Option Nat) (fin : End) (blk maxLine cap0 : Nat) (tail inp : Bytes)
+    (h : readBlock grow fin blk maxLine cap0 tail inp = .eof) : tail = [] ∧ inp = [] := by
   unfold readBlock at h
   generalize (if cap0 < blk then blk else cap0) = cap at h
   simp only at h
   split at h
   · split at h
-    · exact readLoop_eof grow maxLine tail.length _ _ tail inp h
+    · exact readLoop_eof grow fin maxLine tail.length _ _ tail inp h
     · cases h
-  · exact readLoop_eof grow maxLine tail.length _ _ tail inp h
+  · exact readLoop_eof grow fin maxLine tail.length _ _ tail inp h
 
 /-! ### the whole body -/
 
@@ -200,10 +212,10 @@ theorem readBlock_eof (grow : Nat → Option Nat) (blk maxLine cap0 : Nat) (tail
 def SplitOf (bs : List Bytes) (all : Bytes) : Prop :=
   (bs = [] ∧ all = []) ∨ (bs ≠ [] ∧ all ≠ [] ∧ (joinNL bs = all ∨ joinNL bs ++ [bNL] = all))
 
-theorem splitOf_cons (all b t rest : Bytes) (bs' : List Bytes) (hblk : BlockOf all b t rest)
+theorem splitOf_cons (fin : End) (all b t rest : Bytes) (bs' : List Bytes) (hblk : BlockOf fin all b t rest)
     (hih : SplitOf bs' (t ++ rest)) : SplitOf (b :: bs') all := by
   right
-  rcases hblk with ⟨hall, ht, hrest, hbne⟩ | hall
+  rcases hblk with ⟨hall, ht, hrest, hbne, _⟩ | hall
   · -- the stream ended with this block: the next call answers eof
     subst ht hrest
     rcases hih with ⟨hb', _⟩ | ⟨_, hne, _⟩
@@ -229,9 +241,9 @@ theorem splitOf_cons (all b t rest : Bytes) (bs' : List Bytes) (hblk : BlockOf a
           rw [hall, ← hj]
           simp [List.append_assoc]
 
-theorem splitBlocks_spec (grow : Nat → Option Nat) (blk maxLine : Nat) :
+theorem splitBlocks_spec (grow : Nat → Option Nat) (fin : End) (blk maxLine : Nat) :
     ∀ (fuel : Nat) (caps : List Nat) (eff : Nat) (tail inp : Bytes) (bs : List Bytes),
-      splitBlocks grow blk maxLine fuel caps eff tail inp = (bs, none) → SplitOf bs (tail ++ inp) := by
+      splitBlocks grow fin blk maxLine fuel caps eff tail inp = (bs, none) → SplitOf bs (tail ++ inp) := by
   intro fuel
   induction fuel with
   | zero => intro caps eff tail inp bs h; simp [splitBlocks] at h
@@ -242,19 +254,20 @@ theorem splitBlocks_spec (grow : Nat → Option Nat) (blk maxLine : Nat) :
     split at h
     · -- eof
       rename_i heof
-      have := readBlock_eof _ _ _ _ _ _ heof
+      have := readBlock_eof _ _ _ _ _ _ _ heof
       simp only [Prod.mk.injEq, and_true] at h
       subst h
       left; simp [this.1, this.2]
     · simp at h
     · simp at h
+    · simp at h
     · rename_i b t rest cap hb
-      have hblk := readBlock_block _ _ _ _ _ _ _ _ _ _ hb
+      have hblk := readBlock_block _ _ _ _ _ _ _ _ _ _ _ hb
       simp only [Prod.mk.injEq] at h
       obtain ⟨hbs, he⟩ := h
       have hih := ih _ _ _ _ _ (Prod.ext rfl he)
       rw [← hbs]
-      exact splitOf_cons _ _ _ _ _ hblk hih
+      exact splitOf_cons _ _ _ _ _ _ hblk hih
 
 /-- **the body splitter loses nothing**: whatever the block size, the line limit, the capacities
 of the buffers it is handed and the way the runtime grows them, the blocks of a body joined by
@@ -263,7 +276,7 @@ the body and no line is cut. -/
 theorem split_concat_eq (grow : Nat → Option Nat) (blk maxLine : Nat) (caps : List Nat) (body : Bytes) (bs : List Bytes)
     (h : bodyBlocks grow blk maxLine caps body = (bs, none)) :
     joinNL bs = body ∨ joinNL bs ++ [bNL] = body := by
-  have := splitBlocks_spec grow blk maxLine _ _ _ _ _ _ h
+  have := splitBlocks_spec grow .eof blk maxLine _ _ _ _ _ _ h
   simp only [List.nil_append] at this
   rcases this with ⟨hb, ha⟩ | ⟨_, _, hj⟩
   · subst hb ha; left; rfl
